@@ -276,6 +276,7 @@ func (s *c01Session) stateKey() string {
 func (s *c01Session) generation(gen int) {
 	d, c, k := s.d, s.c, s.k
 	s.gen = gen
+	genStateIdx := map[*rig.AgentH]int{d.A: len(d.A.StateSeq()), d.B: len(d.B.StateSeq())}
 	d.W.Lock()
 	wireSeen := len(d.Wire)
 	d.W.Unlock()
@@ -431,9 +432,11 @@ func (s *c01Session) generation(gen int) {
 		return d.A.LastState() == ice.ConnectionStateConnected && d.B.LastState() == ice.ConnectionStateConnected
 	}
 	sawFailed := func() bool {
+		// only state events delivered after this generation began count (by position in the callback stream:
+		// a Failed of the previous generation may carry the same simulated time as the Restart)
 		for _, ag := range []*rig.AgentH{d.A, d.B} {
-			for _, ev := range ag.StateSeq() {
-				if ev.State == ice.ConnectionStateFailed && ev.At >= checkingStart {
+			for i, ev := range ag.StateSeq() {
+				if i >= genStateIdx[ag] && ev.State == ice.ConnectionStateFailed {
 					return true
 				}
 			}
